@@ -2,7 +2,7 @@
 from __future__ import annotations
 
 import ast
-from typing import Dict, List, Set
+from typing import Dict, List, Optional, Set
 
 from .. import cfg as C
 from .. import lib as L
@@ -27,7 +27,15 @@ EXPLANATION = (
     "a missing :state raises. "
     "C10.nodrop: parse_state rejects unknown components. C10.value: fluent values are float(third item) stored under the fluent's "
     "name. C10.export: the exporter layout (first state, then per step one operator line and the post-state). C10.call: the action "
-    "call keeps name and arguments in order; joint actions keep one entry per agent with nop as such."
+    "call keeps name and arguments in order; joint actions keep one entry per agent with nop as such. "
+    "C10.statewalk: in parse_state, under the valuation of the guard atoms that describes a well-formed element (head '=' and three items / head a declared "
+    "predicate) every turn stores the element (fluents / facts) and goes on with the next one; State(..) gets the two stores under the right fields. "
+    "C10.fluentreader / C10.atomreader: a declared fluent of the declared arity reaches a return in both modes (objects known / deduced), name = token 0, "
+    "signature keys = tokens 1.., the type check tests the object's type against the declared one, arguments occurring twice are recorded, facts are positive, "
+    "a signature is bound in either mode, self.problem is not read when it is None. C10.jointwalk: every entry of an operators: line is parsed (nop as "
+    "ActionCall('nop', [])), all entries are visited, the list is returned. C10.deduce: per kind of element the object names / the declared signature come from "
+    "the positions in ELEMENT_LAYOUT, paired in order. C10.sections: every section reader gets item[1:], no keyword test rejects a well-formed trajectory, "
+    "MultiAgentObservation iff agents are given."
 )
 UNDECIDED = "state equality after the round trip for all trajectories (fact / fluent fidelity beyond the clauses above)"
 
@@ -96,15 +104,14 @@ def _fluent_obligations(repo: Repo, f: FuncInfo) -> List[Dict[str, object]]:
     typechk = set(c05._subtype_check_nodes(repo, f, g))
     init = repo.find_method("PDDLFunction", "__init__")
 
+    problem_absent = U.none_test_atoms(p, {PROBLEM: "noproblem"}, L.parents_of(f))      # `self.problem is None`, also as a truth value
+
     def matcher(e):
-        if isinstance(e, ast.Compare) and len(e.ops) == 1 and isinstance(e.ops[0], (ast.Is, ast.IsNot, ast.Eq, ast.NotEq)) and \
-                isinstance(e.comparators[0], ast.Constant) and e.comparators[0].value is None:
-            try:
-                tr = p.trace(e.left)
-            except KeyError:
-                return None
-            if tr and all(x == ("self", "attr:problem") for x in tr):
-                return "noproblem" if isinstance(e.ops[0], (ast.Is, ast.Eq)) else "!noproblem"
+        a = problem_absent(e)
+        if a is not None:
+            return a
+        if isinstance(e, ast.Compare) and len(e.ops) == 1 and isinstance(e.ops[0], (ast.Eq, ast.NotEq)) and c05._is_arity_test(e, p):
+            return "arity" if isinstance(e.ops[0], ast.Eq) else "!arity"
         return None
 
     G = L.Guards(f, matcher)
@@ -119,6 +126,10 @@ def _fluent_obligations(repo: Repo, f: FuncInfo) -> List[Dict[str, object]]:
             continue
         ob = {"objects_known": known, "line": g.stmt[live[0]].lineno}
         ob["arity"] = not any(n in G.reach(val, avoid=arity) for n in live) and bool(arity)
+        if not ob["arity"] and "arity" in G.atoms_seen:
+            # the same obligation written the other way round (`if len(a) == len(b): ... return ..` / `raise` after it): with the
+            # arity test decided `unequal` no return is reached
+            ob["arity"] = not any(n in G.reach(dict(val, arity=False)) for n in live)
         ob["types"] = not any(n in G.reach(val, avoid=typechk) for n in live) and bool(typechk)
         under = G.under(val, seen)
         rep = True
@@ -323,11 +334,635 @@ def rule_call(repo: Repo) -> RuleResult:
         apps = {g.node_containing(c) for c in L.calls_in(loops[0]) if isinstance(c.func, ast.Attribute) and c.func.attr == "append"}
         counts = {sum(1 for n, _ in pt[1:] if n in apps) for pt in paths if len(pt) > 1 and pt[0][1] == "iter"}
         ok = okzip and counts == {1}
+    if not loops:
+        # the same walk written as one comprehension over zip(.., <the entries>): one element per entry, in order, returned
+        comps = [n for n in ast.walk(j.node) if isinstance(n, (ast.ListComp, ast.GeneratorExp))]
+        for c0 in comps:
+            gen = c0.generators[0]
+            it = gen.iter
+            okzip = isinstance(it, ast.Call) and callee_name(it) == "zip" and any(all(x == ("param:joint_action_call_ast",) for x in pj.trace(a)) for a in it.args)
+            if okzip and len(c0.generators) == 1 and not gen.ifs and not gen.is_async and L.flows_to_return(j, c0) and \
+                    any(callee_name(c) == "parse_action_call" for c in L.calls_in(c0.elt)):
+                ok = True
     if ok:
         r.ok({"joint_action": "one ActionCall appended per entry, in order"})
     else:
         r.fail(Finding("C10.call", j, "joint-action", "a joint action line does not yield exactly one action call per entry in order"))
     r.require_sites(2)
+    return r
+
+
+
+# ------------------------------------------------------------------------------------------------ oracle tables of the hardening clauses
+PREDICATES_TABLE = ("self", "attr:partial_domain", "attr:predicates")
+FUNCTIONS_TABLE = ("self", "attr:partial_domain", "attr:functions")
+PROBLEM = ("self", "attr:problem")
+ASSIGN = "="                    # State.serialize writes a fluent as (= (f a b) v): the head token of an assignment
+ASSIGNMENT_LENGTH = 3           # ['=', [f, a, b], 'v']: the token list of a well-formed assignment has three items
+# where the parts of ONE state element are, by the kind of the element (positions relative to the element's token list):
+#   assignment ['=', [f, a..], v]: fluent name at [1][0], arguments [1][1:]      fact [p, a..]: name at [0], arguments [1:]
+ELEMENT_LAYOUT = {
+    "assignment": {"name": ("item:1", "item:0"), "arguments": ("item:1", "slice:1:"), "table": "attr:functions"},
+    "fact": {"name": ("item:0",), "arguments": ("slice:1:",), "table": "attr:predicates"},
+}
+# valuations of the guard atoms that describe a well-formed element ('=' is not a predicate name: PDDL names start with a letter)
+VAL_ASSIGNMENT = {"assign": True, "fact": False, "three": True}
+VAL_FACT = {"assign": False, "fact": True}
+SECTION_PAYLOAD = "slice:1:"    # every section is (<keyword> item item ...): what is handed to the section's reader is everything after the keyword
+REPEATED = 2                    # an argument that occurs twice is a repeated argument ((dist a a)): the smallest count the bookkeeping must keep
+
+
+def _first_param(f: FuncInfo) -> str:
+    ps = [x for x in f.params if x != f.self_name]
+    if not ps:
+        raise AnalysisError(f"{f.qn}: a parameter holding the token list was expected")
+    return ps[0]
+
+
+def _state_walk_atoms(p, param: str):
+    elem = (f"param:{param}", "elem")
+    return U.element_atoms(p, elem, {ASSIGN: "assign"}, {PREDICATES_TABLE: "fact"}, (ASSIGNMENT_LENGTH, "three")), elem
+
+
+def rule_statewalk(repo: Repo) -> RuleResult:
+    r = RuleResult("C10.statewalk", "parse_state: every well-formed element of a state reaches its store (assignments -> fluents, facts -> predicates) "
+                   "and the walk goes on; State(..) receives the two stores under the right fields",
+                   "the same facts and the same fluents")
+    f = U.deep(repo, "TrajectoryParser.parse_state")
+    p = L.prov(repo, f)
+    g = C.cfg_of(f.node)
+    param = _first_param(f)
+    matcher, elem = _state_walk_atoms(p, param)
+    has = lambda callee: (lambda paths: any(x[:2] == ("self", f"call:{callee}") for x in paths))
+    is_fluent, is_fact = has("parse_grounded_numeric_fluent"), has("parse_grounded_predicate")
+    # the constructor fields
+    r.site(f.qn + " [State fields]")
+    sinit = repo.find_method("State", "__init__")
+    ctors = [c for c in L.calls_in(f.node) if callee_name(c) == "State"]
+    if not ctors:
+        raise AnalysisError("parse_state: no State(..) constructor call found")
+    bad = []
+    for c in ctors:
+        pa, fa = L.arg_of(c, sinit, "predicates", 0), L.arg_of(c, sinit, "fluents", 1)
+        tp = U.safe_trace(p, pa) if pa is not None else set()
+        tf = U.safe_trace(p, fa) if fa is not None else set()
+        flows = lambda paths, callee: any(x[:2] == ("self", f"call:{callee}") and any(s_.startswith("in:") for s_ in x[2:]) for x in paths)
+        if not flows(tp, "parse_grounded_predicate") or is_fluent(tp):
+            bad.append("predicates")
+        if not flows(tf, "parse_grounded_numeric_fluent") or is_fact(tf):
+            bad.append("fluents")
+    if bad:
+        r.fail(Finding("C10.statewalk", f, "state-fields", f"State(..) does not receive the parsed facts as `predicates` and the parsed fluents as `fluents` "
+                       f"(wrong: {sorted(set(bad))})", node=ctors[0]))
+    else:
+        r.ok({"State": "predicates <- parse_grounded_predicate results, fluents <- parse_grounded_numeric_fluent results"})
+    # misplaced tests
+    r.site(f.qn + " [dispatch]")
+    mis = U.misplaced_head_tests(f, p, elem, [ASSIGN], [PREDICATES_TABLE])
+    if mis:
+        r.fail(Finding("C10.statewalk", f, "dispatch-position", f"the kind of a state element is decided by `{unparse(mis[0], 60)}`, not by its first token", node=mis[0]))
+    else:
+        r.ok({"dispatch": "on the first token"})
+    # the walk
+    G = L.Guards(f, matcher)
+    loops = U.loops_over(f, p, (f"param:{param}",))
+    for kind, val, sel, need in (("assignment", VAL_ASSIGNMENT, is_fluent, {"assign"}), ("fact", VAL_FACT, is_fact, {"fact"})):
+        r.site(f.qn + f" [walk: {kind}]")
+        if not loops or not need <= G.atoms_seen:
+            r.ok({kind: "no statement loop over the state with a test of the first token: nothing to decide here"})
+            continue
+        sinks = U.storing_nodes(f, p, g, sel)
+        loop = next((l for l in loops if any(g.node_of(x) in sinks for x in ast.walk(l) if isinstance(x, ast.stmt))), loops[0])
+        v = {k: b for k, b in val.items() if k in G.atoms_seen}
+        why = U.walk_defect(G, v, loop, sinks)
+        if why is None:
+            r.ok({kind: "stored on every path through a turn, the walk goes on"})
+        else:
+            r.fail(Finding("C10.statewalk", f, f"{kind}-walk", f"a well-formed {kind} {why}", node=loop))
+    r.require_sites(4)
+    return r
+
+
+def _case_guards(repo: Repo, f: FuncInfo, p, extra=None):
+    m = U.none_test_atoms(p, {PROBLEM: "noproblem"}, L.parents_of(f))
+    return L.Guards(f, U.any_matcher(m, extra) if extra is not None else m)
+
+
+def _no_problem_dereference(r: RuleResult, rid: str, f: FuncInfo, p, G) -> None:
+    """with `self.problem is None` decided, no attribute of self.problem is read"""
+    r.site(f.qn + " [problem absent]")
+    if "noproblem" not in G.atoms_seen:
+        r.ok({"problem": "never tested against None here"})
+        return
+    val = {"noproblem": True}
+    seen = G.reach(val)
+    hit = [a for a in U.dereferences(f, p, PROBLEM) if G.reaches_expr(val, a, seen=seen)]
+    if hit:
+        r.fail(Finding(rid, f, "problem-absent-dereference", f"`{unparse(hit[0], 50)}` is evaluated although self.problem is None "
+                       "(objects deduced from the first state): the parse fails with AttributeError", node=hit[0]))
+    else:
+        r.ok({"problem is None": "no attribute of self.problem is read"})
+
+
+def rule_fluentreader(repo: Repo) -> RuleResult:
+    rid = "C10.fluentreader"
+    r = RuleResult(rid, "parse_grounded_numeric_fluent: a declared fluent with the declared number of arguments is accepted in both modes; name = first "
+                   "token, signature keys = remaining tokens; the type check tests the object's type against the declared one; repeated arguments from count 2",
+                   "the same fluents with the same argument lists")
+    f = U.deep(repo, "TrajectoryParser.parse_grounded_numeric_fluent")
+    p = L.prov(repo, f)
+    g = C.cfg_of(f.node)
+    param = _first_param(f)
+    root = f"param:{param}"
+    name_path = (root, "item:0")
+
+    def is_count(e):
+        tr = U.safe_trace(p, e)
+        return bool(tr) and all(len(x) >= 4 and x[-1] == "unpack:1" and x[-2] == "elem" and x[-3] == "call:items" and any(s_.endswith(":Counter") for s_ in x) for x in tr)
+
+    def extra(e):
+        if isinstance(e, ast.Compare) and len(e.ops) == 1:
+            if isinstance(e.ops[0], (ast.Eq, ast.NotEq)) and c05._is_arity_test(e, p):
+                return "arity" if isinstance(e.ops[0], ast.Eq) else "!arity"
+            if isinstance(e.ops[0], (ast.In, ast.NotIn)):
+                tl, tr = U.safe_trace(p, e.left), U.safe_trace(p, e.comparators[0])
+                if tl and all(x == name_path for x in tl) and tr and all(x == FUNCTIONS_TABLE for x in tr):
+                    return "declared" if isinstance(e.ops[0], ast.In) else "!declared"
+            v = U.compare_at(e, is_count, REPEATED)
+            if v is not None:
+                return "repeated" if v else "!repeated"
+        return None
+
+    G = _case_guards(repo, f, p, extra)
+    init = repo.find_method("PDDLFunction", "__init__")
+    rets = [n for n in g.nodes() if g.kind[n] == "return"]
+    cases = [True, False] if "noproblem" in G.atoms_seen else [None]
+    for noproblem in cases:
+        label = "objects-known" if noproblem is False else "objects-unknown" if noproblem else "any"
+        val = {k: True for k in ("arity", "declared") if k in G.atoms_seen}
+        if noproblem is not None:
+            val["noproblem"] = noproblem
+        seen = G.reach(val)
+        r.site(f"{f.qn} [well-formed fluent, {label}]")
+        live = [n for n in rets if n in seen]
+        if not live:
+            r.fail(Finding(rid, f, f"wellformed-rejected:{label}", "a declared fluent with the declared number of arguments never reaches a return "
+                           "(the arity / declaration test is inverted or the case has no result)"))
+            continue
+        r.ok({label: "accepted"})
+        under = G.under(val, seen)
+        ctors = [c for c in L.calls_in(f.node) if callee_name(c) == "PDDLFunction" and g.node_containing(c) in seen]
+        r.site(f"{f.qn} [constructor fields, {label}]")
+        bad = []
+        for c in ctors:
+            nm, sg = L.arg_of(c, init, "name", 0), L.arg_of(c, init, "signature", 1)
+            tn = U.safe_trace(p, nm, under=under) if nm is not None else set()
+            if not tn or not all(x[0] == root and U.position_of(x, 1) == ("item:0",) and len(x) == 2 for x in tn):
+                bad.append("name is not the first token")
+            ts = U.safe_trace(p, sg, under=under) if sg is not None and not U.unbound_names(f, p, g, sg, seen) else set()
+            ents = L.map_entries(ts)
+            keys = [e for k, e in ents if k == "key" and e and e[0] == root]
+            if not keys:
+                bad.append("no signature whose keys are argument tokens reaches the constructor")
+            elif not all(U.position_of(e, 1) == (SECTION_PAYLOAD,) for e in keys):
+                bad.append(f"signature keys are taken from {sorted({'/'.join(U.position_of(e, 1)) for e in keys})}, not from the tokens after the name")
+        if not ctors:
+            bad.append("no PDDLFunction is built")
+        if bad:
+            r.fail(Finding(rid, f, f"fluent-fields:{label}", "; ".join(sorted(set(bad)))))
+        else:
+            r.ok({label: "name = token 0, signature keys = tokens 1.."})
+    _no_problem_dereference(r, rid, f, p, G)
+    # direction / pairing of the type check
+    r.site(f.qn + " [type check pairing]")
+    bad = []
+    for c in L.calls_in(f.node):
+        if callee_name(c) == "is_sub_type" and isinstance(c.func, ast.Attribute) and c.args:
+            rv, av = U.safe_trace(p, c.func.value, keys=True), U.safe_trace(p, c.args[0], keys=True)
+            if any("attr:signature" in x for x in rv):
+                bad.append((c, "the tested type is (looked up through) a declared parameter type"))
+            elif av and not any("attr:signature" in x for x in av):
+                bad.append((c, "the type it is tested against is not a declared parameter type"))
+    if bad:
+        r.fail(Finding(rid, f, "typecheck-pairing", f"`{unparse(bad[0][0], 60)}`: {bad[0][1]} (argument tokens and declared types are paired the wrong way round)", node=bad[0][0]))
+    else:
+        r.ok({"type check": "object's type .is_sub_type(declared type)"})
+    # repeated arguments: the bookkeeping keeps every count >= 2
+    r.site(f.qn + " [repeat threshold]")
+    if "repeated" in G.atoms_seen:
+        val = {"repeated": True}
+        seen = G.reach(val)
+        pm = L.parents_of(f)
+        uses = []
+        for n in ast.walk(f.node):
+            if isinstance(n, ast.Name) and isinstance(n.ctx, ast.Load) and is_count(n):
+                par = pm.get(n)
+                if isinstance(par, ast.Compare):
+                    continue
+                uses.append(n)
+        if uses and not any(G.reaches_expr(val, u, seen=seen) for u in uses):
+            r.fail(Finding(rid, f, "repeat-threshold", "an argument that occurs twice is not recorded as repeated: (= (dist a a) 1) comes back as (dist a)", node=uses[0]))
+        else:
+            r.ok({"repeated arguments": "kept from count 2"})
+    else:
+        r.ok({"repeated arguments": "no count threshold test found"})
+    r.require_sites(4)
+    return r
+
+
+def rule_atomreader(repo: Repo) -> RuleResult:
+    rid = "C10.atomreader"
+    r = RuleResult(rid, "parse_grounded_predicate: in both modes a signature reaches the constructor, facts are positive literals, self.problem is not read when absent",
+                   "the same facts")
+    f = U.deep(repo, "TrajectoryParser.parse_grounded_predicate")
+    p = L.prov(repo, f)
+    g = C.cfg_of(f.node)
+    G = _case_guards(repo, f, p)
+    init = repo.find_method("GroundedPredicate", "__init__")
+    cases = [True, False] if "noproblem" in G.atoms_seen else [None]
+    for noproblem in cases:
+        label = "objects-known" if noproblem is False else "objects-unknown" if noproblem else "any"
+        val = {} if noproblem is None else {"noproblem": noproblem}
+        seen = G.reach(val)
+        under = G.under(val, seen)
+        r.site(f"{f.qn} [constructor fields, {label}]")
+        ctors = [c for c in L.calls_in(f.node) if callee_name(c) == "GroundedPredicate" and g.node_containing(c) in seen]
+        bad = []
+        if not ctors:
+            bad.append("no GroundedPredicate is built")
+        for c in ctors:
+            sg = L.arg_of(c, init, "signature", 1)
+            if sg is None or not U.safe_trace(p, sg, under=under) or U.unbound_names(f, p, g, sg, seen):
+                bad.append("no signature reaches the constructor (it is only bound in the other case)")
+            pos = L.arg_of(c, init, "is_positive", 3)
+            if pos is None:
+                d = init.defaults.get("is_positive") if init is not None else None
+                if not (isinstance(d, ast.Constant) and d.value is True):
+                    bad.append("is_positive is not given")
+            else:
+                tp = U.safe_trace(p, pos, under=under)
+                if not tp or not all(x == ("const:True",) for x in tp):
+                    bad.append("a fact read from a state is not a positive literal")
+        if bad:
+            r.fail(Finding(rid, f, f"atom-fields:{label}", "; ".join(sorted(set(bad)))))
+        else:
+            r.ok({label: "signature present, is_positive=True"})
+    _no_problem_dereference(r, rid, f, p, G)
+    r.require_sites(2)
+    return r
+
+
+
+NOP = "nop"                     # MultiAgentTrajectoryExporter writes an idle agent's entry as (nop )
+
+
+def rule_jointwalk(repo: Repo) -> RuleResult:
+    rid = "C10.jointwalk"
+    r = RuleResult(rid, "parse_joint_action: every entry of the joint action line yields its action call (an entry that is not nop through parse_action_call, "
+                   "a nop entry as ActionCall('nop', []) or the same way), the walk visits all entries, the list is returned",
+                   "joint actions keep one entry per agent, nop as such")
+    f = U.deep(repo, "TrajectoryParser.parse_joint_action")
+    p = L.prov(repo, f)
+    g = C.cfg_of(f.node)
+    param = _first_param(f)
+    root = f"param:{param}"
+
+    def is_entry(path) -> bool:
+        """an element of the joint action line (directly or as the partner of the agents in zip / enumerate)"""
+        if not path or path[0] != root:
+            return False
+        rest = [s_ for s_ in path[1:] if not (s_.startswith("arg") and s_.endswith((":zip", ":enumerate", ":list", ":tuple", ":iter")))]
+        rest = [s_ for s_ in rest if not s_.startswith("unpack:")]
+        return rest in (["elem"], ["item"])
+
+    def entry_head(e) -> Optional[bool]:
+        """True: the first token of an entry; False: another token of an entry; None: something else"""
+        tr = U.safe_trace(p, e)
+        if not tr:
+            return None
+        kinds = set()
+        for x in tr:
+            k = None
+            for i in range(len(x), 0, -1):
+                if is_entry(x[:i]):
+                    pos = U.position_of(x, i)
+                    if len(pos) == len(x) - i and len(pos) == 1 and pos[0].startswith("item:"):
+                        k = pos == ("item:0",)
+                    break
+            kinds.add(k)
+        return kinds.pop() if len(kinds) == 1 else None
+
+    misplaced = []
+
+    def matcher(e):
+        if isinstance(e, ast.Compare) and len(e.ops) == 1 and isinstance(e.ops[0], (ast.Eq, ast.NotEq)):
+            for a_, b_ in ((e.left, e.comparators[0]), (e.comparators[0], e.left)):
+                if isinstance(b_, ast.Constant) and b_.value == NOP:
+                    h = entry_head(a_)
+                    if h is True:
+                        return "nop" if isinstance(e.ops[0], ast.Eq) else "!nop"
+                    if h is False and not any(e is m_ for m_ in misplaced):
+                        misplaced.append(e)
+        return None
+
+    G = L.Guards(f, matcher)
+    r.site(f.qn + " [nop test]")
+    if misplaced:
+        r.fail(Finding(rid, f, "nop-test-position", f"`{unparse(misplaced[0], 50)}` tests a token of the entry that is not its first one "
+                       "(the entry (nop ) has one token)", node=misplaced[0]))
+    else:
+        r.ok({"nop test": "on the first token of the entry" if "nop" in G.atoms_seen else "none"})
+    # sinks
+    ainit = repo.find_method("ActionCall", "__init__")
+
+    def parsed_entry(paths) -> bool:
+        # self.parse_action_call([entry]): the entry is the only element of the list handed over
+        return any(x[:2] == ("self", "call:parse_action_call") for x in paths) and \
+            any(any(is_entry(x[:i]) and x[i:i + 2] == ("in:0", "arg0:parse_action_call") for i in range(1, len(x))) for x in paths)
+
+    def nop_call(v: ast.AST) -> bool:
+        for c in ([v] if isinstance(v, ast.Call) else []):
+            if callee_name(c) == "ActionCall":
+                nm, ps = L.arg_of(c, ainit, "name", 0), L.arg_of(c, ainit, "grounded_parameters", 1)
+                tn = U.safe_trace(p, nm) if nm is not None else set()
+                okn = bool(tn) and all(x == (f"const:{NOP!r}",) for x in tn)
+                okp = isinstance(ps, (ast.List, ast.Tuple)) and not ps.elts
+                if not okp and ps is not None:
+                    tp = U.safe_trace(p, ps)
+                    okp = bool(tp) and all(x == ("fresh:list",) for x in tp) and isinstance(ps, ast.Name) and False
+                return okn and okp
+        return False
+
+    aparams = [x for x in (ainit.params if ainit is not None else ["self", "name", "grounded_parameters"]) if x != (ainit.self_name if ainit is not None else "self")]
+    name_steps = {"kw:name:ActionCall"} | ({f"arg{aparams.index('name')}:ActionCall"} if "name" in aparams else set())
+    nop_root = f"const:{NOP!r}"
+    # every ActionCall named by the constant 'nop' has an empty parameter list
+    nop_ctors = [c for c in L.calls_in(f.node) if callee_name(c) == "ActionCall" and (lambda a: a is not None and U.safe_trace(p, a) == {(nop_root,)})(L.arg_of(c, ainit, "name", 0))]
+    nop_wellformed = all(nop_call(c) for c in nop_ctors)
+
+    def idle_value(paths) -> bool:
+        named = [x for x in paths if len(x) >= 2 and x[1] in name_steps]
+        return bool(named) and all(x[0] == nop_root for x in named) and nop_wellformed
+
+    def real_value(paths) -> bool:
+        return parsed_entry(paths) and not any(len(x) >= 2 and x[1] in name_steps for x in paths)
+
+    appends = []
+    for n in ast.walk(f.node):
+        if isinstance(n, ast.Expr) and isinstance(n.value, ast.Call) and isinstance(n.value.func, ast.Attribute) and n.value.func.attr in ("append", "add") \
+                and len(n.value.args) == 1 and g.node_of(n) is not None:
+            tr = U.safe_trace(p, n.value.args[0])
+            if parsed_entry(tr) or any(len(x) >= 2 and x[1] in name_steps for x in tr):
+                appends.append(n)
+    loops = [l for l in ast.walk(f.node) if isinstance(l, ast.For) and any(any(x is a for a in appends) for x in ast.walk(l))]
+    cases = [("entry", {"nop": False}, (real_value,)), ("nop-entry", {"nop": True}, (real_value, idle_value))] if "nop" in G.atoms_seen else [("entry", {}, (real_value, idle_value))]
+    r.site(f.qn + " [entries]")
+    if not loops:
+        # no statement loop (a comprehension): the element expression under the two valuations of the nop test
+        real_calls = [c for c in L.calls_in(f.node) if callee_name(c) == "parse_action_call" and parsed_entry(U.safe_trace(p, c))]
+        idle_calls = [c for c in nop_ctors if nop_wellformed]
+        why = None
+        for label, val, _sel in cases:
+            calls = real_calls if len(_sel) == 1 else real_calls + idle_calls
+            live = [c for c in calls if G.reaches_expr(val, c) and L.flows_to_return(f, c)]
+            if not live:
+                why = label
+                break
+        if why is None:
+            r.ok({"entries": "each one parsed (nop as nop) and part of the result; no statement loop"})
+        else:
+            what = "an entry that is not nop" if why == "entry" else "a nop entry (as ActionCall('nop', []))"
+            r.fail(Finding(rid, f, f"joint-{why}", f"{what} is not parsed into the result"))
+    else:
+        loop = loops[0]
+        for label, val, sels in cases:
+            seen = G.reach(val)
+            under = G.under(val, seen)
+            sinks = [g.node_of(a) for a in appends if any(sel(U.safe_trace(p, a.value.args[0], under=under)) for sel in sels)]
+            why = U.walk_defect(G, val, loop, sinks)
+            if why is not None:
+                what = "an entry that is not nop" if label == "entry" else "a nop entry (as ActionCall('nop', []))"
+                r.fail(Finding(rid, f, f"joint-{label}", f"{what} {why}", node=loop))
+                break
+        else:
+            r.ok({"entries": "each one parsed and stored, nop as nop; the walk visits all"})
+    # the result
+    r.site(f.qn + " [result]")
+    ends = [n for n, _l in g.pred[g.exit]]
+    rets = L.func_returns(f)
+    carried = [x for x in rets if x.value is not None and any(any(s_.startswith("in:") for s_ in y) and y[:2] == ("self", "call:parse_action_call")
+                                                                 for y in U.safe_trace(p, x.value))]
+    if ends and all(g.kind[n] == "return" for n in ends) and rets and len(carried) == len(rets):
+        r.ok({"result": "the list of parsed entries"})
+    else:
+        r.fail(Finding(rid, f, "joint-result", "the parsed entries are not returned on every path (a path ends without `return <the list>`)"))
+    r.require_sites(3)
+    return r
+
+
+def _object_ctor_steps(repo: Repo):
+    init = repo.find_method("PDDLObject", "__init__")
+    ps = [x for x in (init.params if init is not None else ["self", "name", "type"]) if x != (init.self_name if init is not None else "self")]
+    steps = {}
+    for field in ("name", "type"):
+        steps[field] = {f"kw:{field}:PDDLObject"} | ({f"arg{ps.index(field)}:PDDLObject"} if field in ps else set())
+    return steps
+
+
+def rule_deduce(repo: Repo) -> RuleResult:
+    rid = "C10.deduce"
+    r = RuleResult(rid, "deduce_problem_objects: per kind of element the object names are the argument tokens, typed by the declared signature looked up by the "
+                   "element's name token, names and types paired position by position",
+                   "parsing with objects deduced from the first state reproduces the same states")
+    f = U.deep(repo, "TrajectoryParser.deduce_problem_objects")
+    p = L.prov(repo, f)
+    g = C.cfg_of(f.node)
+    param = _first_param(f)
+    root = f"param:{param}"
+    elem = (root, "elem")
+    matcher = U.element_atoms(p, elem, {ASSIGN: "assign"}, {PREDICATES_TABLE: "fact"})
+    G = L.Guards(f, matcher)
+    r.site(f.qn + " [dispatch]")
+    mis = U.misplaced_head_tests(f, p, elem, [ASSIGN], [PREDICATES_TABLE])
+    if mis:
+        r.fail(Finding(rid, f, "dispatch-position", f"the kind of a state element is decided by `{unparse(mis[0], 60)}`, not by its first token "
+                       "(zero-arity atoms have one token)", node=mis[0]))
+    else:
+        r.ok({"dispatch": "on the first token"})
+    steps = _object_ctor_steps(repo)
+    rets = [x for x in L.func_returns(f) if x.value is not None]
+    for kind, val, need in (("assignment", {"assign": True, "fact": False}, "assign"), ("fact", {"assign": False, "fact": True}, "fact")):
+        r.site(f.qn + f" [{kind}]")
+        if need not in G.atoms_seen or not rets:
+            r.ok({kind: "no test of the first token found: nothing to decide here"})
+            continue
+        lay = ELEMENT_LAYOUT[kind]
+        v = {k: b for k, b in val.items() if k in G.atoms_seen}
+        seen = G.reach(v)
+        under = G.under(v, seen)
+        paths = set()
+        for x in rets:
+            if g.node_of(x) in seen:
+                paths |= U.safe_trace(p, x.value, keys=True, under=under)
+        names = [x for x in paths if any(s_ in steps["name"] for s_ in x)]
+        types = [x for x in paths if any(s_ in steps["type"] for s_ in x)]
+        if not names and not types:
+            r.ok({kind: "no PDDLObject built from the element on this path (objects not collected here)"})
+            continue
+        bad = []
+        for x in names:
+            if x[:2] != elem or "askey" in x or "attr:signature" in x:
+                bad.append("an object name is not an argument token of the element")
+            elif U.position_of(x, 2) != lay["arguments"]:
+                bad.append(f"object names are read from {'/'.join(U.position_of(x, 2)) or 'the element'} instead of {'/'.join(lay['arguments'])}")
+        for x in types:
+            if "attr:signature" not in x:
+                bad.append("an object type is not a declared parameter type")
+            elif x[:2] == elem:
+                if "askey" not in x or U.position_of(x, 2) != lay["name"] or x[2 + len(lay["name"])] != "askey":
+                    bad.append(f"the declared signature is looked up by {'/'.join(U.position_of(x, 2)) or 'the element'} instead of {'/'.join(lay['name'])}")
+            elif x[0] == "self" and x[:2] == ("self", "attr:partial_domain") and x[2] != lay["table"]:
+                bad.append(f"the declared signature is looked up in {x[2][5:]}")
+        # names and types are zip partners: different components of the same zip
+        zn = {s_ for x in names for s_ in x if s_.startswith("arg") and s_.endswith(":zip")}
+        zt = {s_ for x in types for s_ in x if s_.startswith("arg") and s_.endswith(":zip")}
+        if zn and zt and zn & zt:
+            bad.append("names and declared types are not paired position by position")
+        if bad:
+            r.fail(Finding(rid, f, f"deduce-{kind}", "; ".join(sorted(set(bad)))))
+        else:
+            r.ok({kind: f"names {'/'.join(lay['arguments'])}, signature of {'/'.join(lay['name'])} in {lay['table'][5:]}"})
+    r.require_sites(3)
+    return r
+
+
+WELL_FORMED = (          # heads of the items of an exported trajectory: (:init ..) then (operator: ..) / (operators: ..) and (:state ..) alternately
+    {":init": True, "operator:": True, "operators:": False, ":state": True},
+    {":init": True, "operator:": False, "operators:": True, ":state": True},
+)
+SECTION_READERS = ("parse_state", "parse_action_call", "parse_joint_action", "deduce_problem_objects")
+
+
+def rule_sections(repo: Repo) -> RuleResult:
+    rid = "C10.sections"
+    r = RuleResult(rid, "parse_trajectory: every section reader receives the items after the section keyword; a well-formed trajectory is never rejected by a "
+                   "keyword test; the observation is multi-agent exactly when agents are given; self.problem is not read when absent",
+                   "the same states and the same action calls, single-agent and joint")
+    f = U.deep(repo, "TrajectoryParser.parse_trajectory")
+    p = L.prov(repo, f)
+    g = C.cfg_of(f.node)
+    # payloads
+    r.site(f.qn + " [section payloads]")
+    bad = []
+    n_calls = 0
+    for c in L.calls_in(f.node):
+        nm = callee_name(c)
+        if nm in SECTION_READERS and isinstance(c.func, ast.Attribute) and c.args:
+            n_calls += 1
+            for x in U.safe_trace(p, c.args[0]):
+                if "call:parse" not in x:
+                    continue
+                tail = [s_ for s_ in x[x.index("call:parse") + 1:]]
+                slices = [s_ for s_ in tail if s_.startswith("slice:")]
+                picks = [i for i, s_ in enumerate(tail) if s_ == "item" or s_.startswith("item:") or s_ == "elem" or (s_.startswith("unpack:") and s_[7:].isdigit())]
+                if not picks:
+                    continue        # not one item of the token sequence: not understood, left alone
+                after = [s_ for s_ in tail[picks[-1] + 1:] if not s_.startswith("unpack:")]
+                if after != [SECTION_PAYLOAD] and all(s_.startswith("slice:") for s_ in after):
+                    bad.append((c, nm, "/".join(after) or "the whole item"))
+    if bad:
+        c, nm, got = bad[0]
+        r.fail(Finding(rid, f, f"section-payload:{nm}", f"{nm} receives {got} of the section's item, not the items after the keyword ([1:])", node=c))
+    elif n_calls:
+        r.ok({"payload": "item[1:] for every section reader"})
+    else:
+        raise AnalysisError("parse_trajectory: no section reader call found")
+    # well-formed input is not rejected by a keyword test
+    r.site(f.qn + " [well-formed accepted]")
+    tests = {id(n): (k, pos) for n, k, pos in _keyword_tests(repo, f)}
+
+    def matcher(e):
+        if id(e) in tests:
+            k, pos = tests[id(e)]
+            return k if pos else "!" + k
+        return None
+
+    G = L.Guards(f, matcher)
+    atoms = sorted(G.atoms_seen)
+    hit = None
+    if atoms:
+        import itertools as _it
+        for n in g.nodes():
+            st = g.stmt[n]
+            if g.kind[n] != "if" or not isinstance(st, ast.If) or isinstance(st, C.InlineBlock):
+                continue
+            in_body = any(isinstance(x, ast.Raise) for x in st.body)
+            in_else = any(isinstance(x, ast.Raise) for x in st.orelse)
+            if in_body == in_else:
+                continue
+            outcomes = set()
+            for bits in _it.product((True, False), repeat=len(atoms)):
+                v = G.value(dict(zip(atoms, bits)), st.test)
+                outcomes.add(v if isinstance(v, bool) else "residual" if v is not None else None)
+            if len(outcomes) < 2:
+                continue            # the test does not depend on the section keywords
+            for w in WELL_FORMED:
+                val = {k: b for k, b in w.items() if k in G.atoms_seen}
+                seen = G.reach(val)
+                if n not in seen:
+                    continue
+                v = G.value(val, st.test, seen=seen)
+                if isinstance(v, bool):
+                    if v is in_body:
+                        hit = (st, v)
+                        break
+                    continue
+                # undecided: counted only when what is left is an option of the call (a parameter used as a truth value), not a
+                # further look at the input
+                res = v
+                while isinstance(res, ast.UnaryOp) and isinstance(res.op, ast.Not):
+                    res = res.operand
+                tr = U.safe_trace(p, res) if isinstance(res, ast.Name) else set()
+                if tr and all(len(x) == 1 and x[0].startswith("param:") for x in tr):
+                    hit = (st, v)
+                    break
+            if hit:
+                break
+    if hit:
+        st, v = hit
+        more = "always" if isinstance(v, bool) else f"depending on `{unparse(v, 40)}`" if v is not None else "for some inputs"
+        r.fail(Finding(rid, f, "wellformed-rejected", f"`{unparse(st.test, 70)}` rejects a trajectory whose items start with :init / operator(s): / :state {more}", node=st))
+    else:
+        r.ok({"well-formed": "no keyword test raises"})
+    # the observation class
+    r.site(f.qn + " [observation class]")
+    adds = [c for c in L.calls_in(f.node) if callee_name(c) == "add_component" and isinstance(c.func, ast.Attribute)]
+    minit = repo.find_method("MultiAgentObservation", "__init__")
+    agent_roots = set()
+    for c in L.calls_in(f.node):
+        if callee_name(c) == "MultiAgentObservation":
+            a = L.arg_of(c, minit, "executing_agents", 0)
+            for x in (U.safe_trace(p, a) if a is not None else ()):
+                if len(x) == 1 and x[0].startswith("param:"):
+                    agent_roots.add(x)
+    G2 = L.Guards(f, U.none_test_atoms(p, {x: "single" for x in agent_roots}))
+    if adds and "single" in G2.atoms_seen:
+        bad = []
+        for single, want in ((True, "fresh:Observation"), (False, "fresh:MultiAgentObservation")):
+            val = {"single": single}
+            seen = G2.reach(val)
+            under = G2.under(val, seen)
+            got = {x[0] for c in adds for x in U.safe_trace(p, c.func.value, under=under) if x[0].startswith("fresh:")}
+            if got and got != {want}:
+                bad.append(f"with{'out' if single else ''} executing agents the components are added to {sorted(y[6:] for y in got)}")
+        if bad:
+            r.fail(Finding(rid, f, "observation-class", "; ".join(bad) + " (single-agent: Observation, joint: MultiAgentObservation)"))
+        else:
+            r.ok({"observation": "MultiAgentObservation iff executing agents are given"})
+    else:
+        r.ok({"observation": "class choice not expressed as a None test of the agents parameter"})
+    _no_problem_dereference(r, rid, f, p, _case_guards(repo, f, p))
+    r.require_sites(4)
     return r
 
 
@@ -338,6 +973,8 @@ def rules(repo: Repo, tier: str) -> List[RuleResult]:
         c05.rule_value(repo, "C10.value", "TrajectoryParser.parse_state", "state_fluents"),
         c16.rule_export(repo, "C10.export", "TrajectoryExporter", "operator:"),
         rule_call(repo),
+        rule_statewalk(repo), rule_fluentreader(repo), rule_atomreader(repo),
+        rule_jointwalk(repo), rule_deduce(repo), rule_sections(repo),
         c14.rule_serialize(repo, "C10.fields"), c08.rule_valuetext(repo, "C10.valuetext"),
         c01.rule_dupkeys(repo, "C10.dupkeys", ["TrajectoryParser.parse_grounded_numeric_fluent"]),
         c07.rule_global(repo, "C10.global"),
